@@ -192,6 +192,12 @@ func (runInfo *runInfoStruct) invokeLetItemSlice(expr *ast.ItemExpr, slot reflec
 		return
 	}
 
+	if index == item.Len() && item.Kind() == reflect.Array {
+		// an array cannot grow (reflect.Append panics on it)
+		runInfo.err = newStringError(expr, "index out of range")
+		runInfo.rv = nilValue
+		return
+	}
 	if index == item.Len() {
 		// try to do automatic append
 		value, runInfo.err = convertReflectValueToType(value, item.Type().Elem())
